@@ -19,9 +19,12 @@ FUNCTIONS = ["DimensionSet.no_repeated_dimensions", "DimensionSet.copy_dim_list"
 ASSUMPTIONS = ["dimension names concrete, pairwise distinct, >= 2 characters", "dimensions handed to a mutator together (expand_by) have pairwise distinct letters",
                "replace(key, d) with d's letter equal to the replaced dimension's own letter: either outcome accepted (the property only speaks of clashes)"]
 OUTSIDE = ["sets with more than 4 dimensions", "letters that coincide with names"]
+VARIANTS = 'every insert position incl. negative; dimensions sharing a name; receivers looked up before every operation'
 BOUNDS = {"quick": dict(sizes="|A|,|B| <= 3, all pairs", ops="| & - ^ + get_subset [] in index size shape total_size append prepend insert expand_by replace drop copy constructor",
                         histories="2-step sequences of in-place / out-of-place mutators"),
           "thorough": dict(sizes="|A|,|B| <= 4", ops="as quick", histories="2- and 3-step sequences")}
+for _t in BOUNDS.values():
+    _t["variants_beyond_the_base_enumeration"] = VARIANTS
 OPTS = {"quick": dict(shadow_every=10, max_paths=3000, max_depth=3000), "thorough": dict(shadow_every=40, max_paths=20000, max_depth=400)}
 BINOPS = ["or", "and", "sub", "xor", "add"]
 LOOKUPS = ["subset_letters", "subset_names", "subset_mixed", "subset_none", "getitem", "contains", "index_size_shape", "copy"]
